@@ -5,6 +5,7 @@ package sym
 
 import (
 	"fmt"
+	"os"
 	"go/token"
 	"go/types"
 	"strings"
@@ -884,15 +885,22 @@ func (h *hbState) cur(in *interpreter) *goroutine {
 	return in.sched.cur
 }
 
+func (h *hbState) skip(in *interpreter) bool {
+	return in.curFrame != nil && in.curFrame.info != nil && in.curFrame.info.harness
+}
+
 func (h *hbState) onRead(in *interpreter, p *value) {
 	g := h.cur(in)
-	if g == nil || !in.trailOn {
+	if g == nil || !in.trailOn || h.skip(in) {
 		return
 	}
 	sh := h.cells[p]
 	if sh == nil {
 		sh = &shadow{}
 		h.cells[p] = sh
+	}
+	if hbDebug && sh.hasW && sh.w.gid != g.id {
+		fmt.Fprintf(os.Stderr, "hb read g%d at %s: last write g%d clock %d at %s; reader knows %d\n", g.id, in.hbWhere(), sh.w.gid, sh.w.clock, sh.w.where, g.vc[sh.w.gid])
 	}
 	if sh.hasW && sh.w.gid != g.id && sh.w.clock > g.vc[sh.w.gid] {
 		panic(pathEnd{kind: endRace, msg: fmt.Sprintf("data race: read by g%d at %s after unsynchronised write by g%d at %s", g.id, in.hbWhere(), sh.w.gid, sh.w.where)})
@@ -909,7 +917,7 @@ func (h *hbState) onRead(in *interpreter, p *value) {
 
 func (h *hbState) onWrite(in *interpreter, p *value) {
 	g := h.cur(in)
-	if g == nil || !in.trailOn {
+	if g == nil || !in.trailOn || h.skip(in) {
 		return
 	}
 	sh := h.cells[p]
@@ -929,3 +937,5 @@ func (h *hbState) onWrite(in *interpreter, p *value) {
 	sh.hasW = true
 	sh.reads = sh.reads[:0]
 }
+
+var hbDebug = os.Getenv("GOSYM_DEBUG") == "hb"
